@@ -1,4 +1,51 @@
-(* placeholder until the proofs are integrated *)
-From DictIO Require Import Chars Str Value Scalar.
-Theorem C05_placeholder : True. Proof. exact I. Qed.
-Print Assumptions C05_placeholder.
+(* C05  References and expressions: token-wise substitution, prefix safety, termination of reference resolution. *)
+From Coq Require Import String.
+From Coq Require Import NArith ZArith List Bool.
+From DictIO Require Import Chars Str Value Scalar SDict Expr TreeSpec MiscSpec LayoutSpec SemProofs.
+Import ListNotations.
+
+(* a reference is replaced as a whole token and the value is inserted literally *)
+Theorem C05_subst_whole_token : forall name val post fuel, word_name name ->
+  (match post with c :: _ => is_word c = false /\ c <> c_lbrk | [] => True end) ->
+  (length (ref_of name ++ post) < fuel)%nat ->
+  subst_token fuel (ref_of name) val (ref_of name ++ post) =
+  val ++ subst_token (fuel - 1) (ref_of name) val post.
+Proof. exact subst_whole_token. Qed.
+Print Assumptions C05_subst_whole_token.
+
+(* a variable name that is a prefix of another one is not substituted inside the longer reference *)
+Theorem C05_prefix_safe : forall a more val fuel, word_name a -> word_name more ->
+  (length (ref_of (a ++ more)) < fuel)%nat ->
+  subst_token fuel (ref_of a) val (ref_of (a ++ more)) = ref_of (a ++ more).
+Proof. exact subst_prefix_safe. Qed.
+Print Assumptions C05_prefix_safe.
+
+(* text without the reference is left alone *)
+Theorem C05_subst_absent : forall r val e fuel, r <> [] -> contains r e = false -> subst_token fuel r val e = e.
+Proof. exact subst_absent. Qed.
+Print Assumptions C05_subst_absent.
+
+(* reference resolution terminates on every variable table, including self- and mutually-referential ones
+   (repaired resolver: the inner while-loop remembers the reference texts it has tried) *)
+Theorem C05_resolve_terminates : forall vars r, resolve_reference vars r <> RFuel.
+Proof. exact resolve_terminates. Qed.
+Print Assumptions C05_resolve_terminates.
+
+(* the table on which the unrepaired resolver looped for ever (resolving b[0] hands back "$b[0]" again) is now
+   simply unresolved *)
+Example C05_former_loop :
+  let vars := [(KS (of_string "a"), Leaf (SStr (of_string "$b[0]")));
+               (KS (of_string "b"), Leaf (SStr (of_string "$c")));
+               (KS (of_string "c"), Lst [Leaf (SStr (of_string "$b[0]"))])] in
+  resolve_reference vars (of_string "$a") = RNone.
+Proof. vm_compute. reflexivity. Qed.
+
+(* an undeclared name is unresolved *)
+Theorem C05_undeclared : forall vars r, alookup (KS (ref_name r)) vars = None -> resolve_reference vars r = RNone.
+Proof. exact resolve_undeclared. Qed.
+Print Assumptions C05_undeclared.
+
+Example C05_cycle :
+  let vars := [(KS (of_string "b"), Leaf (SStr (of_string "$c"))); (KS (of_string "c"), Leaf (SStr (of_string "$b")))] in
+  resolve_reference vars (of_string "$b") = RNone /\ resolve_reference vars (of_string "$c") = RNone.
+Proof. vm_compute. split; reflexivity. Qed.
